@@ -18,6 +18,7 @@ from unittest import mock
 
 from . import coqlit as L
 from .core import Prop, rp_import
+from .sides import Sides, Spec
 
 SLACK = 6
 TFINAL = ['DONE', 'FAILED', 'CANCELED']
@@ -97,7 +98,7 @@ def timeout_arg(t):
     return Fraction(t, 10)
 
 
-class C15(Prop):
+class C15Wait(Prop):
     id = 'C15'
     module = 'c15'
     title = 'Waiting on tasks and pilots returns when it should'
@@ -488,6 +489,15 @@ class C15(Prop):
             inc('timeout', 'none' if not c.get('timeout') else 'set')
             inc('entities', 1 if 'traj' in c else len(c['ents']))
         return d
+
+
+class C15(Sides, C15Wait):
+    # waiting can only return when the client's Task objects reach the states that were reported: the client's
+    # handling of notification batches in any delivery order (the C06 check) is part of what C15 promises
+    side_specs = [Spec('client', 'c06', ['progression', 'final_state_consistent', 'no_exception'])]
+    clauses = C15Wait.clauses + side_specs[0].clause_names()
+    extra_targets = C15Wait.extra_targets + ['States/Oracle.vo']
+    model_targets = C15Wait.model_targets + ['States/Oracle.vo']
 
 
 PROP = C15()
